@@ -294,7 +294,9 @@ Definition run_c04 (core invert guard : bool) (G H : hostg) (remaps : option (li
          (* translation validation of the rule preparation (both modes): premises and conclusion of C04_identity_glue_any_rule *)
          tbool (pair_wfb host other); tbool (describesb host other rc);
          tlist (fun xg : mapping * option its => match snd xg with Some g => tbool (regen_exact g host other) | None => L [] end)
-               (match remaps with None => glued | Some _ => [] end)]
+               (match remaps with None => glued | Some _ => [] end);
+         (* the hypothesis of C04_identity_glue_default *)
+         tbool (default_okb sA sB (template core invert G H))]
   end.
 
 Definition run_c04k (core invert guard : bool) (G H : hostg) (remaps : option (list N * list mapping)) (kept : list mapping) : tok :=
